@@ -8,4 +8,6 @@ Extraction "../ocaml/gen_c01/model.ml"
   from_u128 from_i64 bfe_to_i64 try_into_unsigned try_into_signed
   bfe_new_ok bfe_value_ok bfe_add_ok bfe_sub_ok bfe_mul_ok mod_reduce_ok from_i64_u128_ok bfe_to_i64_ok
   xadd xsub xneg xmul xscale xaddb baddx xsubb bsubx xpow xinverse xinverse_or_zero xdiv
-  xbatch_inversion xlift xunlift xeqb.
+  xbatch_inversion xlift xunlift xeqb
+  montyred power_accumulator raw_bytes raw_u16s from_le_chunks is_canonical bfe_sum cyclic_group_elements
+  xsum xnew_const xtry_from_slice xincrement xdecrement xroot.
